@@ -790,3 +790,27 @@ Proof.
     intros x [<-|[]]. vm_compute. reflexivity.
   - eexists. split; [vm_compute; reflexivity|reflexivity].
 Qed.
+
+(* ---------- the comparator of the legacy sort (with or without the rank guard of /repo fc14842) is asymmetric ---------- *)
+From KV Require Base.StrOrder Res.LegacySortProofs.
+From Coq Require Import ZArith Lia.
+
+Lemma legacy_less_g_asym guarded first last a b :
+  LegacySort.legacy_less_g guarded first last a b = true -> LegacySort.legacy_less_g guarded first last b a = false.
+Proof.
+  unfold LegacySort.legacy_less_g. rewrite (LegacySortProofs.gvk_eqb_sym (LegacySort.id_gvk b)).
+  destruct (LegacySort.gvk_eqb (LegacySort.id_gvk a) (LegacySort.id_gvk b)); cbn [negb].
+  - apply StrOrder.sltb_asym.
+  - generalize (LegacySort.id_gvk a) (LegacySort.id_gvk b). clear a b. intros a b.
+    unfold LegacySort.gvk_less_than_g.
+    rewrite (Z.eqb_sym (LegacySort.type_order first last (LegacySort.g_kind b))).
+    destruct (Z.eqb (LegacySort.type_order first last (LegacySort.g_kind a))
+                    (LegacySort.type_order first last (LegacySort.g_kind b))) eqn:E; cbn [negb].
+    + apply Z.eqb_eq in E. rewrite <- E.
+      rewrite (andb_comm (String.eqb (LegacySort.g_kind b) _)), (orb_comm (String.eqb (LegacySort.g_group b) _)).
+      match goal with |- (if ?c then _ else _) = true -> _ => destruct c end; apply StrOrder.sltb_asym.
+    + intros H. apply Z.ltb_lt in H. apply Z.ltb_ge. lia.
+Qed.
+
+Lemma res_less_asym first last a b : res_less first last a b = true -> res_less first last b a = false.
+Proof. unfold res_less. apply legacy_less_g_asym. Qed.
